@@ -145,6 +145,17 @@ Section C09.
       /\ verify (p_key signer) (message_for_signing (md_beacon md) (gp_body p) t) (md_sig md) = true.
   Proof. intros; eapply remaining_entry_takes_precedence; eassumption. Qed.
 
+  (* C09_accepted_joiners_self_signed: whatever the node's state, an accepted proposal packet stores
+     only joining entries that are validly self-signed (under their OWN stored key) for the stored
+     scheme - every entry of the list, not just some: the key of a joiner is thereby tied to the
+     leader-signed (address, self-signature) pair *)
+  Theorem C09_accepted_joiners_self_signed : forall now s p s' o t,
+    pkstep now s p = (s', o) -> s' <> s -> gp_body p = PProposal t ->
+    exists next, current s' = Some next
+      /\ (forall j, In j (st_joining next) -> joiner_ok (st_scheme next) j = true)
+      /\ (forall j, In j (t_joining t) -> joiner_ok (t_scheme t) j = true).
+  Proof. intros; unfold ppacket_step in *; eapply accepted_joiners_self_signed; eassumption. Qed.
+
   Theorem C09_partial_stored_keys : forall now s p s' o,
     pkstep now s p = (s', o) -> s' <> s -> (forall t, gp_body p <> PProposal t) ->
     exists next, current s' = Some next
@@ -164,6 +175,7 @@ Print Assumptions C09_members_authenticate_proposals.
 Print Assumptions C09_partial.
 Print Assumptions C09_partial_addresses.
 Print Assumptions C09_remaining_entry_takes_precedence.
+Print Assumptions C09_accepted_joiners_self_signed.
 Print Assumptions C09_partial_stored_keys.
 
 (* ---------- concrete witnesses ---------- *)
@@ -245,6 +257,19 @@ Definition w_terms_shadow : terms :=
 Example C09_shadow_witness :
   snd (w_step w_s1 (w_pkt [97] [9; 9; 9; 9] 2 (PProposal w_terms_shadow))) = Rej ESigInvalid
   /\ snd (w_step w_s1 (w_pkt [97] [1; 1; 1; 1] 6 (PProposal w_terms_shadow))) = OK.
+Proof. vm_compute. split; reflexivity. Qed.
+
+(* joiner-key swap (regression example): with an identity oracle that accepts exactly the genuine
+   entries, replacing the key of the FIRST of three joiners (address and self-signature kept) is
+   refused although the last joiner is fine *)
+Definition genuine_j (_ : bytes) (p : participant) : bool :=
+  existsb (equal_participant p) [w_a; w_b; w_c].
+Definition w_terms1_swapped : terms :=
+  mkT w_B 2 1 1000 (Some w_a) 5 30 w_sch 0 [] [w_a; mkP [98] [9; 9; 9; 9] [32]; w_c] [] [].
+Example C09_joiner_key_swap_witness :
+  snd (pstep sym_verify genuine_j all_k w_b w_B init_store (w_pkt [97] [1; 1; 1; 1] 1 (PProposal w_terms1))) = OK
+  /\ snd (pstep sym_verify genuine_j all_k w_b w_B init_store (w_pkt [97] [1; 1; 1; 1] 1 (PProposal w_terms1_swapped)))
+     = Rej EInvalidKeyScheme.
 Proof. vm_compute. split; reflexivity. Qed.
 
 (* framing caveat: without the fixed-length assumption the bytes do NOT determine the terms - a
